@@ -24,6 +24,10 @@ func execLongestPath(g *graph.DGraph) {
 	for _, n := range nodes {
 		followLongestPath(n, height, &nlayers)
 	}
+	// nlayers is final only once every node has been visited
+	for _, n := range g.Nodes {
+		n.Layer = nlayers - height[n]
+	}
 }
 
 func followLongestPath(n *graph.Node, height graph.NodeIntMap, nlayers *int) int {
